@@ -11,6 +11,8 @@ from vlib import gens
 PROPERTY = 'C01'
 LEVEL = 'exploration'
 RULE = (
+    "sub-check history: the tree is serialised, edited through the public API (append, rename, edit(), set_key, ...) and "
+    "serialised again, optionally after an earlier serialise() in the process failed; sub-check roundtrip: " +
     'Hypothesis generates tree descriptors [name, str | [children]] (depth<=5, width<=6) over an escape-heavy '
     'alphabet plus arbitrary Unicode scalars, with serialise options and a delivery mode (str / chunk list / file); '
     'non-trivial = the tree has a block and a string that needs escaping; distinct = sha1 of the descriptor JSON'
@@ -201,10 +203,71 @@ def execute(desc, ctx):
             break
 
 
+# ----------------------------------------------------------------------------- histories: serialise, edit, serialise again
+
+def history_strategy(tier: str):
+    from checks import c09_copies_independent as c09
+    return st.fixed_dictionaries({
+        'tree': st.lists(node_strategy(tier), min_size=1, max_size=4),
+        'opts': options_strategy(),
+        'pre_fail': st.sampled_from([None, None, 'deep', 'nonstr', 'bad_file']),
+        'muts': st.lists(c09.kv_mut_strategy(), min_size=1, max_size=6),
+        'delivery': st.sampled_from(['str', 'chars', 'file']),
+    })
+
+
+def execute_history(desc, ctx):
+    """The tree is serialised once, then edited through the public API, then serialised again: the second text must describe
+    the tree as it is now (nothing remembered from the first serialisation), also after an earlier serialise() call in the
+    process failed half-way (recursion limit, a non-string leaf, a file object whose write() raises)."""
+    from checks import c09_copies_independent as c09
+    from srctools.keyvalues import Keyvalues
+    root = Keyvalues.root(*[build(n) for n in desc['tree']])
+    opts = desc['opts']
+    root.serialise(**opts)                    # first serialisation (whatever it may cache)
+    pre = desc['pre_fail']
+    if pre is not None:
+        ctx.label('pre_fail:' + pre)
+        try:
+            if pre == 'deep':
+                deep = cur = Keyvalues('lvl', [])
+                for _ in range(3000):
+                    nxt = Keyvalues('lvl', [])
+                    cur.append(nxt)
+                    cur = nxt
+                Keyvalues.root(Keyvalues('first', 'x'), deep).serialise()
+            elif pre == 'nonstr':
+                Keyvalues.root(Keyvalues('first', 'x'), Keyvalues('bad', 5)).serialise()       # type: ignore[arg-type]
+            else:
+                class Failing:
+                    def __init__(self): self.n = 0
+                    def write(self, text):
+                        self.n += 1
+                        if self.n > 2:
+                            raise OSError(28, 'No space left on device')
+                Keyvalues.root(Keyvalues('first', 'x'), Keyvalues('blk', [Keyvalues('a', 'b'), Keyvalues('c', 'd')])).serialise(Failing())
+        except (RecursionError, TypeError, AttributeError, OSError):
+            ctx.label('pre_fail:raised')
+    changed = False
+    for mut in desc['muts']:
+        changed = c09.kv_apply(root, mut, ctx) or changed
+        ctx.label('mut:' + mut[0])
+        want = [shape(c) for c in root]
+        text = root.serialise(**opts)
+        got = [shape(c) for c in Keyvalues.parse(deliver(text, desc['delivery'], []))]
+        if not ctx.check(got == want, 'shape_after_edit',
+                         f'after {mut} (earlier: first serialise(), pre_fail={pre}) the text does not describe the current tree\n'
+                         f' want={want!r}\n got ={got!r}\n text={text!r}', mutation=mut[0], pre_fail=pre):
+            return
+    ctx.nontrivial(changed)
+
+
 SUBCHECKS = [
     Sub('roundtrip', execute, strategy=case_strategy, quick=4000, thorough=120000, floor=50,
         must_hit=('block', 'esc', 'esc_block_name', 'empty_block', 'unicode',
                   'delivery:chunks', 'delivery:file', 'delivery:lines', 'delivery:chars', 'delivery:special')),
+    Sub('history', execute_history, strategy=history_strategy, quick=1200, thorough=40000, floor=50,
+        must_hit=('mut:edit_name', 'mut:rename', 'mut:set_value', 'pre_fail:deep', 'pre_fail:nonstr', 'pre_fail:bad_file', 'pre_fail:raised')),
 ]
 
 MATCHERS = {}
